@@ -420,7 +420,7 @@ fn random_histories(ctx: &Ctx, rep: &mut Report, r: &mut Rng) {
                 for f in frags.iter_mut() {
                     if f.5.is_none() {
                         // a few histories with fragments of several MiB: groups pass 2^24 bytes
-                        let extra = if hi % 128 == 3 { *r.pick(&[0usize, 98_000, 5_000_000, 9_000_000]) } else { *r.pick(&[0usize, 380, 5000, 30_000, 66_000, 98_000]) };
+                        let extra = if hi % 128 == 3 && hi < 4000 { *r.pick(&[0usize, 98_000, 5_000_000, 9_000_000]) } else { *r.pick(&[0usize, 380, 5000, 30_000, 66_000, 98_000]) };
                         f.3.extend(std::iter::repeat(b'w').take(extra));
                     }
                 }
@@ -593,6 +593,37 @@ pub fn run(ctx: &Ctx, rep: &mut Report) {
                 let c = lk.next_ctr();
                 lk.feed_hdr(rep, 3, 3, id, &uniq_payload(c), 0, false, None, "mass-unfragmented");
                 rep.count("mass-unfragmented-runs");
+            }
+        }
+    }
+    // (std / alloc) an abandoned group whose buffer has grown past 2^24, 2^26 or 2^27 bytes, followed
+    // by an ordinary small group: what is delivered is the small group, nothing of the abandoned one
+    if !mon::is_noalloc() {
+        let mut item = 9500u64;
+        for total in [1usize << 24, 1 << 26, 1 << 27] {
+            for same_id in [true, false] {
+                if !ctx.mine(item) {
+                    item += 1;
+                    continue;
+                }
+                item += 1;
+                let mut lk = Lock::new(PID);
+                let big = |tag: u64| {
+                    let mut v = uniq_payload(tag);
+                    v.extend(std::iter::repeat(b'w').take(total / 2 + 1000));
+                    v
+                };
+                lk.feed_hdr(rep, 3, 1, Some(5), &big(1), 0, false, None, "huge-abandoned");
+                lk.feed_hdr(rep, 3, 2, Some(5), &big(2), 0, false, None, "huge-abandoned");
+                // keep the replay small: the two long lines are described, not stored
+                lk.log.clear();
+                lk.log.push((format!("... fragments 1 and 2 of 3 (id 5), {} payload characters each, tail never sent ...", total / 2 + 1006).into_bytes(), false));
+                let id = if same_id { Some(5) } else { Some(6) };
+                let c1 = lk.next_ctr();
+                lk.feed_hdr(rep, 2, 1, id, &uniq_payload(c1), 0, false, None, "huge-abandoned");
+                let c2 = lk.next_ctr();
+                lk.feed_hdr(rep, 2, 2, id, &uniq_payload(c2), 0, false, None, "huge-abandoned");
+                rep.count("huge-abandoned-groups");
             }
         }
     }
